@@ -273,6 +273,12 @@ fn part_tasks(report: &Report, tier: Tier) {
         (json!({"tool": "bash", "args": {"cwd": 7}}), "invalid_args"),
         (json!({"tool": "python", "args": {"command": "x"}}), "unsupported_tool"),
         (json!({"tool": "bash", "args": {"command": "sleep 5"}}), "sleeping"),
+        // preview limits 0, 1 and "smaller than the first character of a read": the stored output
+        // must not depend on what fits into the preview
+        (json!({"tool": "bash", "args": {"command": "printf 'hello world'", "max_bytes": 0}}), "preview_limit_0"),
+        (json!({"tool": "bash", "args": {"command": "printf 'ab'", "max_bytes": 1}}), "preview_limit_1"),
+        (json!({"tool": "bash", "args": {"command": "printf '\\342\\202\\254uro'", "max_bytes": 2}}), "preview_limit_2_euro"),
+        (json!({"tool": "bash", "args": {"command": "printf '\\342\\202\\254uro' >&2; printf x", "max_bytes": 0}}), "preview_limit_0_both"),
     ];
     let expected_stdout: std::collections::HashMap<&str, Vec<u8>> = [
         ("stdout_utf8", "aéb\n".as_bytes().to_vec()),
@@ -281,6 +287,10 @@ fn part_tasks(report: &Report, tier: Tier) {
         ("20KiB_cap5000", vec![b'z'; 5000]),
         ("exit0", vec![]),
         ("stderr_only", vec![]),
+        ("preview_limit_0", b"hello world".to_vec()),
+        ("preview_limit_1", b"ab".to_vec()),
+        ("preview_limit_2_euro", "€uro".as_bytes().to_vec()),
+        ("preview_limit_0_both", b"x".to_vec()),
     ]
     .into_iter()
     .collect();
@@ -398,7 +408,7 @@ pub fn run(opts: Opts) -> i32 {
         "part 1: every output of <=3 (quick) / <=4 (thorough) symbols from {a, LF, 2-byte, 4-byte, 0xFF} (<=10 bytes) x ALL compositions into \
          read chunks x preview limit 0..6 x artifact cap {0,1,3,8,unbounded} through the real foreground capture loop with a scripted \
          reader, plus 7 large outputs (8191/8192/8193/16385/20000/30000 bytes; greedy and bursty chunking) x 8 preview limits x 5 caps; \
-         part 2: 6 blobs x every (offset, max_bytes) and every page size 1..6 through artifact_fetch; part 3: 11 pipe-mode task commands \
+         part 2: 6 blobs x every (offset, max_bytes) and every page size 1..6 through artifact_fetch; part 3: 15 pipe-mode task commands (incl. preview limits 0, 1 and 2 with multi-byte output) \
          x cancel moments through the production router; distinct = output / blob / (command, cancel)",
     );
     report.assume("PTY tasks are excluded (no usable PTY in this sandbox); cancel moments of real tasks are wall-clock points, judged only by the schedule-independent lifecycle grammar");
